@@ -78,6 +78,8 @@ func newEngine(prog *ssa.Program) *Engine {
 	eng.registerASN1()
 	eng.registerJSON()
 	eng.registerHTTP()
+	eng.registerPairs()
+	eng.registerHTTPClient()
 	eng.registerStubs()
 	return eng
 }
